@@ -286,13 +286,25 @@ def run(tier, seed, replay=None):
     for nm, text, expect_err in [("ok", '#include "stddef.gdh"\n' + T, False), ("error_directive", "#error x\n" + T, True),
                                  ("stray_endif", "#endif\n" + T, True), ("unterminated_if", "#if 1\n" + T, True),
                                  ("missing_include_warns", '#include "nope.gdh"\n' + T, False), ("unterminated_comment", T + "/* x\n", True),
-                                 ("macro_arg_count_warns", "#define F(a,b) a\nF(1)\n" + T, False)]:
+                                 ("macro_arg_count_warns", "#define F(a,b) a\nF(1)\n" + T, False),
+                                 # messages of severity "Fatal" (internal buffers exhausted) are errors too
+                                 ("long_define_body", "#define X " + "a" * 600 + "\n" + T, True),
+                                 ("too_many_macro_parameters", "#define F(%s) p0\n" % ",".join("p%d" % k for k in range(40)) + T, True),
+                                 ("deep_if_nesting", "#if 1\n" * 40 + T + "#endif\n" * 40, None),
+                                 # #if arithmetic: a zero divisor is a warning where it is evaluated and nothing at all in an operand
+                                 # that is skipped (the usual guard idiom with an undefined name)
+                                 ("if_div_zero_warns", "#if 1000 / 0\n#endif\n" + T, False),
+                                 ("if_div_zero_guarded_and", "#if defined(KDIV) && (1000 / KDIV) > 10\n#endif\n" + T, False),
+                                 ("if_mod_zero_guarded_or", "#if !defined(KDIV) || (1000 % KDIV) > 10\n#endif\n" + T, False),
+                                 ("if_div_zero_guarded_cond", "#if defined(KDIV) ? (1000 / KDIV) : 7\n#endif\n" + T, False)]:
         open(os.path.join(pd, nm + ".gdl"), "w").write(text)
         r = subprocess.run([build["gdlpp"], nm + ".gdl", nm + ".i"], cwd=pd, capture_output=True, text=True)
         said_error = bool(re.search(r": (Error|Fatal)", r.stderr))
         stats["pp_cases"] += 1
         if r.returncode < 0:
             rep.violation("pp-" + nm, {"problem": "gdlpp died with signal %d" % -r.returncode, "stderr": r.stderr[-300:]})
+        elif expect_err is not None and said_error != expect_err:
+            rep.violation("pp-" + nm, {"problem": "gdlpp %s an error, expected: %s" % ("reported" if said_error else "did not report", expect_err), "stderr": r.stderr[-300:]})
         elif (r.returncode != 0) != said_error:
             rep.violation("pp-" + nm, {"problem": "gdlpp exit status %d but it %s an error" % (r.returncode, "reported" if said_error else "did not report"), "stderr": r.stderr[-300:]})
     rep.coverage.update({
@@ -301,7 +313,7 @@ def run(tier, seed, replay=None):
         "syntax_seed_without_token_cite": stats["syntax_seed_without_token_cite"], "preprocessor_status_cases": stats["pp_cases"], "rejected": stats["rejected"],
         "traces_validated_against_impl": stats["pairs"] + stats["seeds"] + stats["pp_cases"], "disagreements_checked": len(rep.violations),
         "evaluations": stats["pairs"] + stats["seeds"], "distinct_nontrivial": len(distinct) + 2,
-        "rule": "each program in a flat and a decomposed spelling (include files, also in a subdirectory with a nested include of a sibling by its bare name and an unrelated file of that name next to the main file, object/function-like macros with a continuation line, #if 0 / #ifdef regions, block/line comments, blank lines); undefined-class seeds at sampled (thorough: all) statement positions; 7 preprocessor status cases; distinct = distinct (file, statement kind, inside-macro) seed situations",
+        "rule": "each program in a flat and a decomposed spelling (include files, also in a subdirectory with a nested include of a sibling by its bare name and an unrelated file of that name next to the main file, object/function-like macros with a continuation line, #if 0 / #ifdef regions, block/line comments, blank lines); undefined-class seeds at sampled (thorough: all) statement positions; 14 preprocessor status cases; distinct = distinct (file, statement kind, inside-macro) seed situations",
         "samples": samples, "exhaustive": False,
     })
     rep.assumptions += ["macro bodies are not modelled; the equivalence of spellings is decided by byte equality of the fonts",
